@@ -464,3 +464,112 @@ def module_value(f, node):
         node = m.assigns[node.id][0]
         seen += 1
     return node
+
+
+def result_values(f):
+    """What a function hands back, per producing site: [(value expr, CFG node where it is evaluated, Return stmt)].  `return <expr>`
+    gives the expression itself; `return name` where `name` is a local with several reaching assignments (the single-exit style:
+    `result = ...` on every branch, one `return result` at the end) gives one entry per assignment."""
+    out = []
+    g, rd = f.cfg, f.rd
+    for n in g.nodes:
+        if n.kind != 'stmt' or not isinstance(n.ast, ast.Return) or n not in g.reachable():
+            continue
+        v = n.ast.value
+        if isinstance(v, ast.Name) and rd.is_local(v.id):
+            defs = rd.at(n, v.id)
+            if defs and all(d.kind == 'assign' and d.value is not None for d in defs):
+                for d in defs:
+                    out.append((d.value, d.node, n.ast))
+                continue
+        out.append((v, n, n.ast))
+    return out
+
+
+def weak_loop_bound(loop):
+    """the loop condition is one of the recognised *insufficient* bounds for a remaining-length counter: plain truthiness (`while n:`),
+    `n != 0`, `n >= 0`, `n is not None`, or `while True` without any exit.  Anything else that `counter_of_while` does not understand
+    (e.g. a count-up formulation `limit > received`) is simply a form without a recogniser."""
+    t = loop.test
+    if isinstance(t, ast.Name):
+        return True
+    cp = compare_parts(t)
+    if cp:
+        a, op, b = cp
+        if isinstance(a, ast.Name) and ((op is ast.NotEq and is_const(b, 0)) or (op is ast.GtE and is_const(b, 0)) or
+                                        (op is ast.IsNot and isinstance(b, ast.Constant) and b.value is None)):
+            return True
+    if isinstance(t, ast.Constant) and t.value is True:
+        exits = [x for x in ast.walk(loop) if isinstance(x, (ast.Break, ast.Return, ast.Raise))]
+        return not exits
+    if isinstance(t, ast.BoolOp) and isinstance(t.op, ast.And):
+        return all(isinstance(v, ast.Name) or (compare_parts(v) and compare_parts(v)[1] in (ast.NotEq, ast.IsNot)) for v in t.values)
+    return False
+
+
+def guard_atoms(f, node, within=None):
+    """Facts that hold whenever control reaches CFG node `node`, read off the tests whose one edge dominates it:
+    [(atom expr, holds: bool, test node)].  A test taken on its true edge contributes its and-conjuncts as holding, on its false
+    edge its or-disjuncts as not holding; `not` flips; flags are replaced by the expression they were computed from
+    (`has_limit = limit is not None; if has_limit:` yields the atom `limit is not None`).  `within`: only tests inside that AST node."""
+    g = f.cfg
+    out = []
+
+    def add(e, holds, tn):
+        while isinstance(e, ast.UnaryOp) and isinstance(e.op, ast.Not):
+            e, holds = e.operand, not holds
+        if isinstance(e, ast.BoolOp):
+            if isinstance(e.op, ast.And) and holds:
+                for v in e.values:
+                    add(v, True, tn)
+                return
+            if isinstance(e.op, ast.Or) and not holds:
+                for v in e.values:
+                    add(v, False, tn)
+                return
+        out.append((e, holds, tn))
+    for tn in g.nodes:
+        if tn.kind != 'test' or tn is node:
+            continue
+        if within is not None and not _inside(tn.ast, within):
+            continue
+        for lab in ('true', 'false'):
+            if g.edge_dominates(tn, lab, node):
+                add(expand(f, tn.ast, tn), lab == 'true', tn)
+    return out
+
+
+def holds_not_none(atoms, name):
+    """some dominating test establishes `name is not None`"""
+    for (e, holds, _) in atoms:
+        cp = compare_parts(e)
+        if cp and isinstance(cp[0], ast.Name) and cp[0].id == name and isinstance(cp[2], ast.Constant) and cp[2].value is None:
+            if (cp[1] is ast.IsNot and holds) or (cp[1] is ast.Is and not holds):
+                return True
+    return False
+
+
+def calls_to(f, *names, shallow=True):
+    """calls in f whose callee, with local aliases substituted back (`rd = self.radidict; rd.add(..)`), is one of the dotted names"""
+    from .astutil import walk_shallow as _ws
+    out = []
+    for c in (_ws(f.node) if shallow else ast.walk(f.node)):
+        if not isinstance(c, ast.Call):
+            continue
+        d = dotted(c.func)
+        if d in names:
+            out.append(c)
+            continue
+        base = c.func
+        while isinstance(base, ast.Attribute):
+            base = base.value
+        if isinstance(base, ast.Name) and not isinstance(f.node, ast.Lambda) and f.rd.is_local(base.id) and base.id not in ('self', 'cls'):
+            ns = f.cfg.node_of_stmt(c)
+            if ns:
+                try:
+                    xd = dotted(expand(f, c.func, ns[0]))
+                except Exception:
+                    xd = None
+                if xd in names:
+                    out.append(c)
+    return out
